@@ -36,7 +36,22 @@ func (f *BasePathFile) Name() string {
 	sourcename := f.File.Name()
 	// strip the base path without its trailing separator, so that the result keeps
 	// its leading separator for the root base path "/" as it does for any other
-	return strings.TrimPrefix(sourcename, strings.TrimSuffix(filepath.Clean(f.path), FilePathSeparator))
+	bpath := strings.TrimSuffix(filepath.Clean(f.path), FilePathSeparator)
+	if bpath == "." {
+		// the working directory: the names of the source carry no prefix to strip
+		switch {
+		case sourcename == bpath:
+			return ""
+		case strings.HasPrefix(sourcename, FilePathSeparator):
+			return sourcename
+		}
+		return FilePathSeparator + sourcename
+	}
+	if bpath != "" && !strings.HasPrefix(bpath, FilePathSeparator) && strings.HasPrefix(sourcename, FilePathSeparator) {
+		// a relative base path on a source that reports rooted names (another BasePathFs)
+		bpath = FilePathSeparator + bpath
+	}
+	return strings.TrimPrefix(sourcename, bpath)
 }
 
 func (f *BasePathFile) ReadDir(n int) ([]fs.DirEntry, error) {
@@ -59,12 +74,29 @@ func (b *BasePathFs) RealPath(name string) (path string, err error) {
 
 	bpath := filepath.Clean(b.path)
 	path = filepath.Clean(filepath.Join(bpath, name))
-	if path != bpath && !strings.HasPrefix(path, strings.TrimSuffix(bpath, FilePathSeparator)+FilePathSeparator) {
-		// a plain string prefix test would also accept siblings such as /basement for /base
+	if !withinBasePath(bpath, path) {
 		return name, os.ErrNotExist
 	}
 
 	return path, nil
+}
+
+// withinBasePath reports whether the cleaned path is the cleaned base path or lies below it.
+func withinBasePath(bpath, path string) bool {
+	if path == bpath {
+		return true
+	}
+	rest := path
+	if bpath != "." {
+		// a plain string prefix test would also accept siblings such as /basement for /base
+		prefix := strings.TrimSuffix(bpath, FilePathSeparator) + FilePathSeparator
+		if !strings.HasPrefix(path, prefix) {
+			return false
+		}
+		rest = path[len(prefix):]
+	}
+	// below a relative base path such as "." or ".." a cleaned path can still begin with "..": it has left it
+	return rest != ".." && !strings.HasPrefix(rest, ".."+FilePathSeparator)
 }
 
 func validateBasePathName(name string) error {
